@@ -1,6 +1,9 @@
 package cac
 
 import (
+	"encoding/binary"
+
+	"github.com/gauss-project/aurorafs/pkg/zzverif"
 	"golang.org/x/crypto/sha3"
 )
 
@@ -13,14 +16,53 @@ import (
 // under gosym, the real keccak natively. cac.New / NewWithDataSpan /
 // newWithSpan / Valid themselves are the real code.
 
+//
+// Payloads up to the full chunk size (VerifC05_AnySizeRoundTrip): keccak needs an
+// input of concrete length, a wrapped payload of symbolic length 1..262144 held as
+// an SMT buffer cannot be fed to it. When VerifC05Samples is set (non-nil) the hash
+// is instead the "sampled" uninterpreted function of the C04 model
+// (harness/pkg/bmt/zz_verif_C04_model.go): four zzverif.U64Of words of
+// span || le64(len(data)) || data[s_0] || data[s_1] .. for sample positions s_k
+// that the harness draws as symbolic indices (0 beyond the end of data; the harness
+// uses ONE position: for every byte of the data there is a choice of the position
+// for which the model hash depends on it). That is
+// a FUNCTION of (span, data) for every choice of positions (which is all the
+// round trip needs: the address computed when the chunk is wrapped and the one
+// recomputed by FromChunk are the same function of the same bytes), but NOT
+// injective, so it is never used where a mutation has to change the address.
+
 //verif:stub hasher = verifC05hasher
+
+// VerifC05Samples: nil = keccak model; non-nil = sampled model with these positions.
+var VerifC05Samples []int
 
 func verifC05hasher(data []byte) func([]byte) ([]byte, error) {
 	return func(span []byte) ([]byte, error) {
+		if VerifC05Samples != nil {
+			return verifC05sampled(span, data), nil
+		}
 		h := sha3.NewLegacyKeccak256()
 		_, _ = h.Write([]byte("cac-model:"))
 		_, _ = h.Write(span)
 		_, _ = h.Write(data)
 		return h.Sum(nil), nil
 	}
+}
+
+func verifC05sampled(span, data []byte) []byte {
+	key := make([]byte, 16+len(VerifC05Samples))
+	copy(key[:8], span)
+	binary.LittleEndian.PutUint64(key[8:16], uint64(len(data)))
+	for k, p := range VerifC05Samples {
+		var v byte
+		if p < len(data) {
+			v = data[p]
+		}
+		key[16+k] = v
+	}
+	out := make([]byte, 32)
+	for i, n := range [...]string{"cac0", "cac1", "cac2", "cac3"} {
+		binary.BigEndian.PutUint64(out[8*i:], zzverif.U64Of(n, key))
+	}
+	return out
 }
